@@ -87,3 +87,52 @@ func knownCallers(c *Ctx, p *packages.Package, fd *ast.FuncDecl) []string {
 	sort.Strings(out)
 	return out
 }
+
+// knownIndexSites (knownsites_data.go, `gpycheck -dump knownsites`): the index, slice and call expressions of the
+// pipeline packages as they stood in the reference tree, keyed function|expression. C11.R6 asks the Go compiler
+// which bounds checks it cannot prove. A site that is in this vocabulary but not among the reviewed unproven
+// sites was proven when the reference was written: if the compiler no longer proves it, a guard was removed.
+// A site that is not in the vocabulary is new code; whether it is in bounds is not something this rule decides.
+func isKnownSite(fn, expr string) bool { return knownIndexSites[fn+"|"+expr] }
+
+func init() {
+	debugHooks["knownsites"] = func(c *Ctx) {
+		seen := map[string]bool{}
+		for _, rel := range pipelinePkgs {
+			p := c.Pkg(rel)
+			if p == nil {
+				continue
+			}
+			for _, f := range c.Files(p) {
+				for _, d := range f.Decls {
+					fd, ok := d.(*ast.FuncDecl)
+					if !ok || fd.Body == nil {
+						continue
+					}
+					id := declID(p, fd)
+					ast.Inspect(fd.Body, func(n ast.Node) bool {
+						switch x := n.(type) {
+						case *ast.IndexExpr:
+							seen[id+"|"+exprStr(x)] = true
+						case *ast.SliceExpr:
+							seen[id+"|"+exprStr(x)] = true
+						case *ast.CallExpr:
+							seen[id+"|call "+exprStr(x)] = true
+						}
+						return true
+					})
+				}
+			}
+		}
+		var keys []string
+		for k := range seen {
+			keys = append(keys, k)
+		}
+		sort.Strings(keys)
+		fmt.Println("package main\n\n// Generated with `gpycheck -dump knownsites`; see knownfuncs.go.\n\nvar knownIndexSites = map[string]bool{")
+		for _, k := range keys {
+			fmt.Printf("\t%q: true,\n", k)
+		}
+		fmt.Println("}")
+	}
+}
